@@ -103,7 +103,7 @@ def gen_extent(rng, tier, kind=None, capacity=None, huge=None):
     """huge: None = occasionally, False = never, "cap" = only a huge capacity (file stays small), True = huge capacity and/or far placement"""
     kind = kind or rng.choice(KINDS)
     if huge is None:
-        huge = rng.random() < (0.08 if tier == "thorough" else 0.04)
+        huge = rng.random() < (0.15 if tier == "thorough" else 0.1)
     seed = rng.randrange(256)
     if kind == "flat":
         cap = capacity or (rng.choice([1 << 32, (1 << 32) + 9, (1 << 33) + 1]) if huge is True else
@@ -124,7 +124,7 @@ def gen_extent(rng, tier, kind=None, capacity=None, huge=None):
         cap = (1 << 32) - 1 - rng.choice([0, 5, gs]) if cowd else rng.choice([1 << 32, (1 << 32) + 1, (1 << 32) + 3 * gs + 5, (1 << 33) + 17])
     else:
         ngr = rng.choice([1, 2, 3, 5, 8, 13, 30, 70])
-        if gte <= 7 and rng.random() < 0.5:
+        if (gte <= 7 or (ses and gte == 64)) and rng.random() < 0.5:
             ngr = gte * rng.choice([129, 140, 170]) + rng.randrange(gte)          # more than 128 grain tables
         elif rng.random() < 0.12:
             ngr = max(1, gte * rng.choice([1, 2, 3]) + rng.choice([-1, 0, 1]))    # ends at / next to a grain-table boundary
@@ -158,12 +158,12 @@ def gen_extent(rng, tier, kind=None, capacity=None, huge=None):
     far = None
     if hfar:
         far = rng.choice([(1 << 31) - rng.choice([1, 3, gs]), "top"]) if not ses else rng.choice([(1 << 32) + 5, (1 << 33) + 1, (1 << 33) + (1 << 20)])
-    elif rng.random() < 0.12 and huge is not False or rng.random() < 0.05:
+    elif rng.random() < 0.08:
         far = rng.choice([(1 << 22) + 3, (1 << 23) + 1])                          # byte offsets beyond 2^31 / 2^32
     gap_p, gaps = rng.choice([0, 0, 0.3]), [1, 3, gs, 2 * gs]
     if ses:
         gd_secs = _ceil(ngt, 64) + rng.choice([0, 0, 1])
-        tix, info["gt_order"] = _perm(rng, len(gts), rng.choice([0, 0, 0, 0, 0xFFFF, 0x10000]) if huge is not False else 0)   # index > 16 bits
+        tix, info["gt_order"] = _perm(rng, len(gts), rng.choice([0, 0, 0, 0, 0xFFFF, 0x10000]))   # table index beyond 16 bits
         cl, info["order"] = _perm(rng, len(alloc), rng.choice([0, 0, 0, 4095, 4090, 0x12345] + ([(1 << 24) + 0xABC, (1 << 36) + 0xFFE] if hfar else [])))
         cof = dict(zip(alloc, cl))
         info["far"] = far
